@@ -33,6 +33,7 @@ pub fn all() -> Vec<Scenario> {
         Scenario { name: "second_observer_spurious_changed", props: &["C09"], run: second_observer_spurious_changed },
         Scenario { name: "unsubscribe_handler_count", props: &["C11", "C09"], run: unsubscribe_handler_count },
         Scenario { name: "double_unsubscribe", props: &["C09", "C10", "C11"], run: double_unsubscribe },
+        Scenario { name: "expert_dependency_on_invalidated_node", props: &["C14", "C04"], run: expert_dependency_on_invalidated_node },
         Scenario { name: "expert_remove_invalid_child", props: &["C14"], run: expert_remove_invalid_child },
         Scenario { name: "expert_add_dep_on_computed_child", props: &["C14"], run: expert_add_dep_on_computed_child },
         Scenario { name: "expert_remove_first_duplicate", props: &["C14"], run: expert_remove_first_duplicate },
@@ -748,6 +749,40 @@ fn scope_node_kept_while_bind_input_grows() -> Result<(), String> {
     {
         let audit = st.verif_audit();
         check!(audit.is_empty(), "audit: {}", audit.join("; "));
+    }
+    Ok(())
+}
+
+fn expert_dependency_on_invalidated_node() -> Result<(), String> {
+    let st = IncrState::new();
+    let x = st.var(3i64);
+    let ctl = st.var(0i64);
+    let e = ExpertNode::<i64>::new(&st.weak(), || 0);
+    let e_w = e.weak();
+    let m = ctl.map({
+        let x = x.clone();
+        let dep: RefCell<Option<Dependency<i64>>> = RefCell::new(None);
+        move |c| match *c {
+            1 => e_w.invalidate(),
+            2 => {
+                *dep.borrow_mut() = Some(e_w.add_dependency(&x));
+            }
+            3 => {
+                if let Some(d) = dep.borrow_mut().take() {
+                    e_w.remove_dependency(d);
+                }
+            }
+            _ => {}
+        }
+    });
+    e.add_dependency(&m);
+    let o = e.watch().observe();
+    let _om = m.observe();
+    st.stabilise();
+    for c in 1..=3 {
+        ctl.set(c);
+        st.stabilise();
+        check!(o.try_get_value() == Err(ObserverError::ObservingInvalid), "step {c}: {:?}", o.try_get_value());
     }
     Ok(())
 }
